@@ -29,6 +29,8 @@ def plan(ctx):
                                   bounds="name bound or unbound (symbolic)", desc="unbound name / unsupported operator => ParserError"))
     from sqv.harness import txt
     for i, prog in enumerate(txt.PROGRAMS):
+        if len(prog) > 600:
+            continue          # (the program with hundreds of blank statements is for the layout rewrites of C15 only)
         obs.append(Obligation(f"txt.only_parser_errors.p{i}", "xh", "txt", "error_line", param={"program": i, "class_only": True}, timeout=T * 6,
                               bounds="one of 20 concrete programs; stray text from 37 samples (brackets, separators, operators, zero / empty literals, illegal characters, reserved words, unterminated quotes and %names, NUL) inserted at, "
                                      "or the text truncated at, every token boundary, under LF / CRLF / ; variants (finite domain enumerated through the solver; real lexer+parser)",
